@@ -6,11 +6,19 @@
     The type / enum attribute scan stores exactly the written [#[singleton(A)]].  RustExec gives
     the accessors' meaning: struct [get] loads the pointer-sized word at A and returns None when it
     is null, else a reference to the object it points to; enum [get] returns the value stored at
-    A; [get_<name>] returns a reference to absolute address A. *)
+    A; [get_<name>] returns a reference to absolute address A.
+    On the emitted text (EmitFn*.v): [C15_emitted_singleton] / [C15_emitted_enum_singleton]: the
+    `get` accessor the back end prints for a singleton, read back from its tokens, is `unsafe`,
+    has the item's visibility, no parameters, the documented return type and reads exactly the
+    address it was given; [C15_emitted_extern_accessor] / [C15_emitted_extern_value]: every extern
+    value of a module has, in the module's file, a `get_<name>` accessor with its visibility that
+    casts exactly its address to a `&'static mut <declared type>`. *)
 From Coq Require Import List NArith ZArith Bool String Lia.
 From PyxisModel Require Import Base Grammar SemTypes Registry Sem SemLemmas FunctionLemmas
      VftableLemmas RustExec.
 Import ListNotations.
+
+From PyxisModel Require EmitReaders EmitFnReaders EmitFnShape EmitFnFinal.
 
 Definition declared_int (name : string) (attrs : list gattr) : option Z :=
   last_some (int_attr name) attrs None.
@@ -63,3 +71,41 @@ Proof. reflexivity. Qed.
 Print Assumptions C15_struct_singleton.
 Print Assumptions C15_enum_singleton.
 Print Assumptions C15_extern_get.
+
+Theorem C15_emitted_singleton :
+  forall (name : string) (v : vis) (addr : N),
+    EmitFnShape.singleton_shape name v addr (Emit.singleton_struct_impl name v addr).
+Proof. exact EmitFnShape.singleton_struct_impl_shape. Qed.
+Print Assumptions C15_emitted_singleton.
+
+Theorem C15_emitted_enum_singleton :
+  forall (p : path) (size : N) (v : vis) (ed : enum_def) (items : list Sexp.sexp),
+    Emit.build_enum p size v ed = Ok items ->
+    exists (name : string) (e : Sexp.sexp) (checks sing : list Sexp.sexp),
+      path_last p = Some name /\
+      items = e :: checks ++ sing /\
+      EmitShape.enum_shape name v ed e /\
+      EmitShape.size_check_shape name size checks /\
+      match ed_singleton ed with
+      | Some a => exists im : Sexp.sexp, sing = [im] /\ EmitFnShape.enum_singleton_shape name v a im
+      | None => sing = []
+      end.
+Proof. exact EmitFnShape.build_enum_singleton_shape. Qed.
+Print Assumptions C15_emitted_enum_singleton.
+
+Theorem C15_emitted_extern_accessor :
+  forall (ev : sextern) (e : Sexp.sexp),
+    Emit.build_extern_value ev = Ok e ->
+    exists t : stype, ev_type ev = Some t /\ EmitFnShape.extern_shape ev t e.
+Proof. exact EmitFnShape.build_extern_value_shape. Qed.
+Print Assumptions C15_emitted_extern_accessor.
+
+Theorem C15_emitted_extern_value :
+  forall (st : sstate) (m : smodule) (f : Sexp.sexp) (ev : sextern),
+    Emit.module_file st m = Ok f ->
+    In ev (m_extern_values m) ->
+    exists (items : list Sexp.sexp) (e : Sexp.sexp) (t : stype),
+      EmitReaders.file_items f = Some items /\
+      In e items /\ ev_type ev = Some t /\ EmitFnShape.extern_shape ev t e.
+Proof. exact EmitFnFinal.emitted_extern_value. Qed.
+Print Assumptions C15_emitted_extern_value.
